@@ -502,7 +502,22 @@ where
             });
 
         // Move entries out of the map — avoids Vec clone
-        let entries = entries_per_peer.remove(&peer_id).unwrap_or_default();
+        let mut entries = entries_per_peer.remove(&peer_id).unwrap_or_default();
+
+        // An AppendEntries request must carry consecutive indexes starting right after
+        // prev_log_index. When a lagging peer's legacy entries were capped, the freshly
+        // appended entries collected behind them do not follow on: keep only the contiguous
+        // run; the rest is sent by a later request once next_index has advanced.
+        let mut expected = prev_log_index.saturating_add(1);
+        let contiguous = entries
+            .iter()
+            .take_while(|e| {
+                let ok = e.index == expected;
+                expected = expected.saturating_add(1);
+                ok
+            })
+            .count();
+        entries.truncate(contiguous);
 
         debug!(
             "[Leader {} -> Follower {}] Replicating {} entries",
